@@ -123,7 +123,7 @@ func (s *SuffrageStateBuilder) buildBatch(
 
 	newprev := localstate
 	var previous base.State
-	var proofs []base.SuffrageProof
+	var proofs, allproofs []base.SuffrageProof
 	var provelock sync.Mutex
 
 	if err := util.BatchWork(
@@ -132,6 +132,9 @@ func (s *SuffrageStateBuilder) buildBatch(
 		s.batchlimit,
 		func(_ context.Context, last uint64) error {
 			previous = newprev
+
+			// NOTE keeps the proofs of the previous batches
+			allproofs = append(allproofs, proofs...)
 
 			switch r := (last + 1) % uint64(s.batchlimit); {
 			case r == 0:
@@ -152,6 +155,8 @@ func (s *SuffrageStateBuilder) buildBatch(
 				return err
 			case !found:
 				return util.ErrNotFound.Errorf("suffrage proof not found, %d", height)
+			case proof.SuffrageHeight() != height:
+				return errors.Errorf("wrong suffrage proof; height does not match, %d != %d", proof.SuffrageHeight(), height)
 			}
 
 			return func() error {
@@ -173,7 +178,7 @@ func (s *SuffrageStateBuilder) buildBatch(
 		return nil, e.Wrap(err)
 	}
 
-	return proofs, nil
+	return append(allproofs, proofs...), nil
 }
 
 func (*SuffrageStateBuilder) prove(
@@ -191,7 +196,7 @@ func (*SuffrageStateBuilder) prove(
 	height := proof.SuffrageHeight()
 
 	index := (height - prevheight - 1).Int64()
-	if index >= int64(len(proofs)) {
+	if index < 0 || index >= int64(len(proofs)) {
 		return errors.Errorf("wrong height")
 	}
 
